@@ -33,16 +33,17 @@ def monitor(case, tr, raw):
     nthread_fibers = 0
     sw_old = {}
     finished = False
-    idle = {}
+    idle = {}        # queued fiber -> {thread: polls since it became runnable}
     for (t, loc, kind, val) in tr:
         if loc == 910 and kind == 99 and val == 0:
-            idle[t] = True
-            if nthread_fibers and len(idle) == nthread_fibers and all(idle.values()):
-                stuck = [f for f, n in pend.items() if n]
-                if stuck:
-                    return "every kernel thread is idle while fiber %d is still queued" % stuck[0]
-        elif loc != 910:
-            idle[t] = False
+            # an idle kernel thread polls (twice per scheduler-loop iteration in T2); a queued, runnable fiber must be
+            # picked up by the time every kernel thread has gone through a full idle iteration after it became runnable
+            for f, n in pend.items():
+                if n and state.get(f) != 5:
+                    ps = idle.setdefault(f, {})
+                    ps[t] = ps.get(t, 0) + 1
+                    if nthread_fibers and len(ps) == nthread_fibers and min(ps.values()) >= 3:
+                        return "every kernel thread went idle (3 polls each) while runnable fiber %d stayed queued" % f
         if kind == -9:
             return "the runtime crashed (signal %d) under this schedule" % val
         if kind != 919 and 200 <= loc < 400:
@@ -52,6 +53,7 @@ def monitor(case, tr, raw):
             if kind == 19:
                 first = f not in state
                 state[f] = val
+                idle.pop(f, None)
                 if val == 1 and not first and f in ctx and ctx[f][0] == 'live' and ctx[f][1] != t:
                     return "fiber %d marked RUNNING by thread %d while it is executing on thread %d" % (f, t, ctx[f][1])
             continue
@@ -70,6 +72,7 @@ def monitor(case, tr, raw):
             if val in destroyed:
                 return "reclaimed fiber %d scheduled" % val
             pend[val] = pend.get(val, 0) + 1
+            idle.pop(val, None)
             if pend[val] > 1:
                 return "fiber %d scheduled twice for one wake-up (queued twice)" % val
         elif loc == EV_NEXT:
@@ -265,7 +268,7 @@ def search(ctx, exe):
         c2.cleanup()
     impl = core.run_sharded([exe], cases, timeout=900)
     for c, line in zip(cases, impl):
-        why = monitor(c, core.parse_trace(line) if line else None, line)
+        why = core.safe_monitor(monitor, c, core.parse_trace(line) if line is not None else None, line)
         if why:
             core.report_violation(ctx, "kernel", c, why, line)
             if len(ctx.violations) >= 3:
